@@ -82,4 +82,14 @@ for op in sorted(OPS):
                    "functions": ["vm.c:sexp_apply:case SEXP_OP_" + op],
                    "bound": "none for the opcode body (loop-free); argument classes enumerated (any immediate / minimum-size object of any tag / right type with %d elements), values symbolic" % 2,
                    "instances": op_instances(op)})
-META = {}
+META = {
+ "trusted_base": ["CBMC 6.11.0 front end and SAT back end", "vlib/vmextract.py: mechanical extraction of the opcode bodies of sexp_apply (drops the dispatch loop and the prologue/epilogue, keeps every statement of every case; direct sign tests (sexp_sint_t)X < 0 rewritten to the shift form CBMC models faithfully)",
+                  "harness/prelude.h substitutions incl. kind tests on registered objects (VERIF_KINDFOLD)"],
+ "assumptions": ["bytecode operands are produced by the compiler: inline operand words are arbitrary 64-bit values for the opcodes checked here (none of which dereferences them)",
+                 "sexp_ensure_stack has run: 64 free slots above top",
+                 "callees outside vm.c and the leaf helpers of sexp.c are contract stubs: exception constructors return a valid exception object with a string message; sexp_cons/list2/make_flonum/make_vector return valid objects; generic arithmetic entry points return a valid number or an exception",
+                 "registered heap objects are 8-byte aligned"],
+ "not_covered": ["the reader and the analyzer/compiler (600-line port-driven functions)", "library procedures written in Scheme",
+                 "opcodes not listed under functions_under_contract: CALL/TAIL_CALL/APPLY1/RET/DONE (see C05), CALLCC/RESUMECC (C06), FCALL0-4/FCALLN (dispatch to foreign functions), port opcodes READ_CHAR/PEEK_CHAR/WRITE_CHAR/WRITE_STRING, SLOT*/MAKE/ISA/TYPEP (type table), PARAMETER_REF, GLOBAL_REF, CLOSURE_REF, LOCAL_REF/SET, STACK_REF, PUSH, JUMP*, MAKE_PROCEDURE, MAKE_EXCEPTION, FORCE, YIELD",
+                 "foreign primitives of sexp.c / eval.c / port.c beyond those listed (planned: substring, subbytes, index->cursor, utf8->string)"],
+}
